@@ -55,6 +55,20 @@ C11Inv == R.kind = "pair" =>
             /\ R.a.ok = R.b.ok /\ R.sameBytes             \* spelling variants: byte-identical result
             /\ Honoured(R.a) /\ Honoured(R.b)            \* and an accepted accidental is honoured
 
+\* stretched trivia: the driver ran the text with n units of trivia in one gap; the record carries the texts with one and
+\* with two units.  Both lex to the tokens of the base text and a unit is made of blanks / comment characters only, so the
+\* lexer is in the same mode after one unit as after two -- hence after n (LexerMC: trivia never changes the mode).
+TriviaUnit(u) == \A i \in 1..Len(u) : u[i] \in {32, 9, 10, 120}
+DriverClaimStretch == R.kind = "stretch" =>
+                        LET a == Lex(R.a.s)  b == Lex(R.b1.s)  c == Lex(R.b2.s) IN
+                        /\ ~a.err /\ ~b.err /\ ~c.err /\ AbsToks(a.toks) = AbsToks(b.toks) /\ AbsToks(a.toks) = AbsToks(c.toks)
+                        /\ TriviaUnit(R.unit) /\ R.n >= 2
+StretchInv == R.kind = "stretch" =>
+                /\ R.bn.terminated /\ ~R.bn.panic
+                /\ R.a.ok = R.bn.ok /\ R.a.ok = R.b1.ok /\ R.a.ok = R.b2.ok
+                /\ R.sameBytes
+                /\ Honoured(R.a) /\ Honoured(R.b1)
+
 \* ------------------------------------------------------------------ C05
 \* the texts of one progression: the degree text and one note-name text per key; the spec first re-derives that they
 \* denote the same progression, then requires the real conversions to agree
